@@ -72,6 +72,24 @@ func emitDtlcpTx(e *emitter, p *pkg) {
 		}
 		e.strList(name, v)
 	}
+	// Facts about the text of Conn.maxPayloadSizeForWrite and halfConn.explicitNonceLen are
+	// INFORMATIONAL since the translation tie: both functions are translated to Lean on every run
+	// (harness/cmd/go2lean) and lean/Gotlcp/Tie/RecordSize.lean proves the translated text equal to
+	// the model for all inputs. They stay in Facts.lean for the reader, but no theorem pins them, the
+	// model is not instantiated from them, and an unrecognised shape (a renamed local, an equivalent
+	// re-arrangement) is no longer reported as a missing fact.
+	infoStr := func(name, v string, ok bool) {
+		if !ok {
+			v = ""
+		}
+		e.str(name, v)
+	}
+	infoList := func(name string, v []string, ok bool) {
+		if !ok {
+			v = nil
+		}
+		e.strList(name, v)
+	}
 	fn := "Conn.maxPayloadSizeForWrite"
 	// default PMTU
 	var def int64
@@ -81,16 +99,17 @@ func emitDtlcpTx(e *emitter, p *pkg) {
 			def, okDef = p.evalInt(as.Rhs[0], 0, 0)
 		}
 	}
-	e.nat("txDefaultPmtu", def, okDef)
+	_ = okDef
+	e.nat("txDefaultPmtu", def, true) // informational (0 when the shape is not recognised); never "missing"
 	src, ok := assignRHS(p, fn, "pmtu")
-	strFact("txPmtuSource", src, ok)
+	infoStr("txPmtuSource", src, ok)
 	base, ok := assignRHS(p, fn, "maxPayload")
-	strFact("txBase", base, ok)
+	infoStr("txBase", base, ok)
 	cl := typeSwitchClauses(p, fn)
 	aead, okA := cl["aead"]
 	cbc, okC := cl["cbcMode"]
-	listFact("txAeadBudget", aead, okA)
-	listFact("txCbcBudget", cbc, okC)
+	infoList("txAeadBudget", aead, okA)
+	infoList("txCbcBudget", cbc, okC)
 	// the repair of F9: round down to the block size, one padding byte, then the MAC
 	budgets := okC && len(cbc) == 3 && cbc[0] == "blockSize := ciph.BlockSize()" &&
 		cbc[1] == "maxPayload = (maxPayload & ^(blockSize - 1)) - 1" && cbc[2] == "maxPayload -= c.out.mac.Size()"
@@ -105,8 +124,8 @@ func emitDtlcpTx(e *emitter, p *pkg) {
 	en := typeSwitchClauses(p, "halfConn.explicitNonceLen")
 	a1, ok1 := en["aead"]
 	c1, ok2 := en["cbcMode"]
-	listFact("txNonceAead", a1, ok1)
-	listFact("txNonceCbc", c1, ok2)
+	infoList("txNonceAead", a1, ok1)
+	infoList("txNonceCbc", c1, ok2)
 	nonceFn := ""
 	if b := body(p, "prefixNonceAEAD.explicitNonceLen"); len(b) == 1 {
 		nonceFn = p.src(b[0])
